@@ -64,8 +64,12 @@ def run(rep, tier, seed):
             cs["sessions"].append(sess)
         cases.append(cs)
     # Ctrl-R / Ctrl-S sessions typed key by key
-    for ci in range(40 if tier == "quick" else 600):
+    for ci in range(120 if tier == "quick" else 1500):
         hist = [rng.choice(ENTRIES) for _ in range(rng.choice([0, 1, 2, 3, 4]))]
+        if rng.random() < 0.6:
+            # entries that extend the texts typed below (this library searches among those)
+            hist += [ip0 + rng.choice(["y", " z", "", "bc"]) for ip0 in rng.sample(INPROGRESS, 3) if ip0]
+            rng.shuffle(hist)
         cs = {"id": "c09i-%d" % ci, "inputrc": "", "w": 80, "h": 24, "prompt": "> ", "sources": [{"name": "main", "kind": "mem", "lines": hist}],
               "histsnap": True, "sessions": []}
         for _ in range(6):
